@@ -134,12 +134,30 @@ def run(tier, seed):
     roots = {}
     root_nodes = {}
     skipped = []
+    root_panics = {}
     for i, spec in enumerate(specs):
         try:
             rs = mapper.make_root(spec, MAPPER_PROPS)
         except Unsupported as e:
             skipped.append((spec.name, str(e)))
             continue
+        except mapper.RootPanic as e:
+            # an accepted layout on which Mapper::for_layout panics: a C14 matter, confirmed natively like every other panic
+            root_panics[i] = (spec, ('PANIC', e.what, 'None', [], e.trace, i))
+            continue
+        if len(rs) != 1 and spec.sym_names():
+            # Mapper::for_layout branches on the values of the template's key symbols (a tree that does arithmetic on key
+            # codes): explore one concrete instance of the template instead
+            try:
+                spec = spec.instantiate(random.Random(seed * 31 + i))
+                specs[i] = spec
+                rs = mapper.make_root(spec, MAPPER_PROPS)
+            except Unsupported as e:
+                skipped.append((spec.name, str(e)))
+                continue
+            except mapper.RootPanic as e:
+                root_panics[i] = (spec, ('PANIC', e.what, 'None', [], e.trace, i))
+                continue
         if len(rs) != 1:
             skipped.append((spec.name, 'for_layout forked on the template (%d roots)' % len(rs)))
             continue
@@ -150,7 +168,7 @@ def run(tier, seed):
             'z3_new_states': 0.25 if tier == 'quick' else 1.0}
     pool = mp.Pool(NCPU, initializer=mapper._w_init, initargs=(None, roots, opts))
     try:
-        return _run_with_pool(pool, tier, seed, B, prog, native, specs, roots, root_nodes, skipped, t_start)
+        return _run_with_pool(pool, tier, seed, B, prog, native, specs, roots, root_nodes, skipped, t_start, root_panics)
     finally:
         pool.terminate()
         try:
@@ -180,7 +198,7 @@ def _confirmed_early(native, spec, res, prop):
     return False
 
 
-def _run_with_pool(pool, tier, seed, B, prog, native, specs, roots, root_nodes, skipped, t_start):
+def _run_with_pool(pool, tier, seed, B, prog, native, specs, roots, root_nodes, skipped, t_start, root_panics=None):
     results = {}
     deadline = time.time() + B['explore_s']
     order = sorted(roots, key=lambda i: (len(roots[i][0].maps) > 6, roots[i][0].N, len(roots[i][0].maps)))
@@ -260,6 +278,13 @@ def _run_with_pool(pool, tier, seed, B, prog, native, specs, roots, root_nodes, 
                 tgt['violations'].append({'role': v[1], 'desc': '[%s] %s' % (spec.name, desc), 'case': case})
             else:
                 tgt['unconfirmed'].append('[%s] %s' % (spec.name, desc))
+    for i, (spec, v) in (root_panics or {}).items():
+        okc, case, desc = confirm_violation(native, spec, v)
+        tgt = per_prop['PANIC']
+        if okc:
+            tgt['violations'].append({'role': 'for_layout', 'desc': '[%s] %s' % (spec.name, desc), 'case': case})
+        else:
+            tgt['unconfirmed'].append('[%s] %s' % (spec.name, desc))
     native.close()
     # ---- summary
     layouts = []
